@@ -660,6 +660,18 @@ class Runner:
                     self.tags.add("op:relabel:" + ("own" if who == ci else "peer") + (":side" if side_sfx else "") +
                                   (":phase" if phase_sfx else "") + (":respelled-side:" + side_form if side_form else "") +
                                   (":respelled-phase:" + phase_form if phase_form else ""))
+        elif k == "shift":           # boundary shift: a genuine ciphertext of `who` for (side, phase) under the label pair that
+            ci, who, phase, kk = op[1:5]  # moves kk characters across the side|phase boundary (kk > 0: the head of the phase
+            wside = W.clients[who].side   # onto the end of the side; kk < 0: the tail of the side onto the head of the phase)
+            cand = [b for b, r in self.registry.items() if r["side"] == wside and r["phase"] == phase]
+            if cand and kk != 0 and abs(kk) < (len(phase) if kk > 0 else len(wside)):
+                if kk > 0:
+                    side2, phase2 = wside + phase[:kk], phase[kk:]
+                else:
+                    side2, phase2 = wside[:kk], wside[kk:] + phase
+                if self.queue(ci, side2, phase2, cand[0]):
+                    self.tags.add("op:shift:" + ("own" if who == ci else "peer") + (":+" if kk > 0 else ":-") +
+                                  (":dilate" if phase.startswith("dilate-") else ""))
         elif k == "respell":         # a queued frame's side or phase label in another spelling: instead of the genuine
             ci, i, which, form = op[1:5]     # frame ("replace") or as an extra copy ahead of / behind it ("before"/"after")
             mode = op[5] if len(op) > 5 else "replace"
@@ -1077,8 +1089,35 @@ def gen_case(rng, ntamper=None):
     return add_requests(rng, gen_case0(rng, ntamper))
 
 
+def long_case(rng):
+    """a run long enough for two-digit phases (11–12 small messages one way), the victim's phase 0 withheld, and boundary-
+    shifting relabels of the two-digit-phase ciphertexts (the peer's, or the victim's own reflected)"""
+    v = rng.randrange(2)
+    o = 1 - v
+    who = rng.choice([o, o, v])
+    s = [["open", 0], ["open", 1], ["code", 0], ["code", 1], ["hold", v, "0"]]
+    n = rng.choice([11, 12])
+    s += [["send", who, "%02x%02x" % (i, rng.randrange(256))] for i in range(n)]
+    if who == v:
+        s.append(["send", o, "ee"])
+    s.append(["pump", rng.choice([30, 40])])
+    for _ in range(rng.choice([1, 2])):
+        ph = rng.choice(["10", "10", "11"]) if n == 12 else "10"
+        s.append(["shift", v, who, ph, rng.choice([1, 1, 1, -1, -2])])
+        if rng.random() < 0.5:
+            s.append(["s2c", v])
+    if rng.random() < 0.4:
+        s.append(["keyholder", v, 0, "dilate-10", "d10d"])
+        s.append(["shift", v, o, "dilate-10", rng.choice([7, 8, 1, -1])])
+    s += [["release", v, "fifo", None], ["pump", 6]]
+    return dict(kind="run", seed=rng.randrange(10**6), honest=False, script=s)
+
+
 def gen_case0(rng, ntamper=None):
-    if rng.random() < 0.15:
+    r0 = rng.random()
+    if r0 < 0.04:
+        return long_case(rng)
+    if r0 < 0.19:
         return prepake_case(rng)
     ka, kb = rng.randrange(0, 7), rng.randrange(0, 7)
     if rng.random() < 0.5:
@@ -1205,6 +1244,24 @@ def corpus():
                                     ["respell", 1, 1, "phase", form, "after"], ["respell", 1, 0, "side", form, "before"], ["settle"]]))
     out.append(dict(kind="run", seed=12, honest=False,
                     script=H + [["pump", 12], ["relabel", 1, 0, 0, "", "", "append", None, "roman"], ["s2c", 1], ["settle"]]))
+    # boundary-shifting relabels: with two-digit phases the concatenation side+phase is ambiguous — the peer's genuine
+    # phase-10 ciphertext as (peer side + "1", phase "0") while the victim has not seen phase 0; the victim's own phase-10
+    # ciphertext reflected as (own side + "1", "0"); the other direction (tail of the side onto the phase); dilate-10 split
+    # as (side + "dilate-", "10") and (side + "dilate-1", "0").  At HEAD: another label, another key -> scared.
+    SENDS = lambda who: [["send", who, "%02x%02x" % (i, 0xa0 + i)] for i in range(11)]
+    for v in (0, 1):
+        o = 1 - v
+        for kk in (1, -1, -2):
+            out.append(dict(kind="run", seed=14, honest=False,
+                            script=H + [["hold", v, "0"]] + SENDS(o) + [["pump", 36], ["shift", v, o, "10", kk], ["s2c", v],
+                                        ["release", v, "fifo", None], ["settle"]]))
+        out.append(dict(kind="run", seed=14, honest=False,
+                        script=H + [["hold", v, "0"]] + SENDS(v) + [["send", o, "ee"], ["pump", 36], ["shift", v, v, "10", 1], ["s2c", v],
+                                    ["release", v, "fifo", None], ["settle"]]))
+        for kk in (7, 8):
+            out.append(dict(kind="run", seed=14, honest=False,
+                            script=H + [["hold", v, "0"], ["send", o, "a0"], ["pump", 14], ["keyholder", v, 0, "dilate-10", "d10d"], ["s2c", v],
+                                        ["shift", v, o, "dilate-10", kk], ["s2c", v], ["release", v, "fifo", None], ["settle"]]))
     # Deferred API: pipelined get_message() with >= 2 phases already queued / requests before the messages / chained from
     # inside the callback; the peer's version overtaken by its first numbered phase (server delay), then delivered
     for v in (0, 1):
@@ -1239,7 +1296,7 @@ def corpus():
 
 def cases(rng, tier):
     out = corpus()
-    n = 300 if tier == "quick" else 4000
+    n = 290 if tier == "quick" else 3900
     for _ in range(n):
         out.append(gen_case(rng))
     if tier == "thorough":
